@@ -9,6 +9,7 @@ import FxVerif.Proofs.C14Inv
 import FxVerif.Proofs.C14InvQ
 import FxVerif.Proofs.C14InvS
 import FxVerif.Proofs.C14InvI
+import FxVerif.Proofs.C14InvG
 /-!
 # C14 — account migration moves everything, once, to the address that authorised it
 
@@ -1265,6 +1266,128 @@ theorem refused_while_in_open_proposal (s : State) (frm to a : Addr) (sigOk : Bo
     · rcases ha with rfl | rfl <;> simp [hv]
 
 
+/-! ## the gov invariant of every history: no deposit or vote outlives its proposal's queue entry -/
+
+/-- every operation keeps: an open proposal sits in the queue of its period, every deposit belongs to a queued proposal
+and every vote to a proposal in the active queue -/
+theorem govInv_step {s : State} (h : GovInv s) (op : Op) : GovInv (step cfg s op).1 := by
+  have keep : ∀ (o : Option State), (∀ s', o = some s' → GovInv s') → GovInv (ofOpt s o).1 := by
+    intro o ho
+    cases o with
+    | none => exact h
+    | some s' => exact ho s' rfl
+  cases op with
+  | send x y d n =>
+    simp only [step]
+    apply keep
+    intro s' hs
+    cases hb : sendUnlocked s.bal (lockedOf s x d) x y d n <;> simp [hb] at hs
+    subst hs; exact govInv_of_govOf h rfl
+  | mint x d n => exact govInv_of_govOf h rfl
+  | delegate d v amt rw => exact keep _ (fun s' hs => govInv_of_govOf h (delegate_gov hs))
+  | undelegate d v amt rw => exact keep _ (fun s' hs => govInv_of_govOf h (undelegate_gov hs))
+  | redelegate d x y amt r1 r2 => exact keep _ (fun s' hs => govInv_of_govOf h (redelegate_gov hs))
+  | withdraw d v rw => exact keep _ (fun s' hs => govInv_of_govOf h (withdraw_gov hs))
+  | setWithdraw d w => exact govInv_of_govOf h rfl
+  | submit x dep => exact keep _ (fun s' hs => govInv_submit h hs)
+  | deposit x id amt => exact keep _ (fun s' hs => govInv_deposit h hs)
+  | vote x id => exact keep _ (fun s' hs => govInv_vote h hs)
+  | block dt => exact govInv_endBlock h dt
+  | setPeriods dp vp => exact govInv_of_govOf h rfl
+  | setUnbond n => exact govInv_of_govOf h rfl
+  | migrate f t sg =>
+    simp only [step]
+    cases hm : migrate cfg s f t sg with
+    | error e => exact h
+    | ok s' =>
+      obtain ⟨_, _, _, _, _, _, _, rfl⟩ := migrate_ok_inv hm
+      exact govInv_of_govOf h (migrated_gov cfg s f t)
+
+/-- **invariant of every history**: from a state in which the gov bookkeeping is consistent (for instance one without
+proposals, deposits and votes), after ANY list of operations — submissions, deposits, votes, blocks whose end blocker
+drops, refunds and closes proposals, parameter changes, migrations — it still is -/
+theorem govInv_run {s : State} (h : GovInv s) (ops : List Op) : GovInv (run cfg s ops) := by
+  induction ops generalizing s with
+  | nil => exact h
+  | cons op ops ih => exact ih (govInv_step h op)
+
+/-- **an accepted migration finds no deposit and no vote of source or target anywhere in the store** — not only none
+of a proposal that is still open: in every state reachable by any history from a state with consistent gov bookkeeping,
+when the migration is accepted, no deposit record and no vote record names the source or the target (the gov end blocker
+refunds the deposits and drops the votes of a proposal exactly when it takes it out of its queue, and the migration's
+scan walks both queues completely) -/
+theorem no_deposit_or_vote_of_migrated {s0 : State} (hg : GovInv s0) (before : List Op) {s' : State} {frm to : Addr}
+    {sigOk : Bool} (h : migrate cfg (run cfg s0 before) frm to sigOk = .ok s') :
+    (∀ p ∈ (run cfg s0 before).deposits, p.1.2 ≠ frm ∧ p.1.2 ≠ to) ∧
+    (∀ p ∈ (run cfg s0 before).votes, p.2 ≠ frm ∧ p.2 ≠ to) ∧
+    (∀ p ∈ s'.deposits, p.1.2 ≠ frm ∧ p.1.2 ≠ to) ∧ (∀ p ∈ s'.votes, p.2 ≠ frm ∧ p.2 ≠ to) := by
+  have h6 := (migrate_ok_inv h).2.2.2.2.2.2.1
+  have hc := gov_clear_of_scan cfg (by rw [cfg_from_code]) (by rw [cfg_from_code]) (by rw [cfg_from_code])
+    (by rw [cfg_from_code]) (by rw [cfg_from_code]) (by rw [cfg_from_code]) (govInv_run hg before) frm to h6
+  obtain ⟨_, _, _, _, _, _, _, rfl⟩ := migrate_ok_inv h
+  have e := migrated_gov cfg (run cfg s0 before) frm to
+  simp only [govOf, Prod.mk.injEq] at e
+  refine ⟨hc.1, hc.2, ?_, ?_⟩
+  · show ∀ p ∈ (moved (run cfg s0 before) frm to).deposits, _
+    unfold moved; rw [e.2.1]; exact hc.1
+  · show ∀ p ∈ (moved (run cfg s0 before) frm to).votes, _
+    unfold moved; rw [e.2.2.1]; exact hc.2
+
+/-- **refused while involved in a proposal whose status is open**: in every reachable state, if the source or the
+target is proposer, depositor or voter of a proposal whose stored status is deposit period (0) or voting period (1) —
+whatever the queues look like: the invariant puts it in its queue — the migration is rejected; and so it is whenever ANY
+deposit or vote record of source or target exists -/
+theorem refused_while_proposal_status_open {s0 : State} (hg : GovInv s0) (before : List Op) (frm to a : Addr)
+    (sigOk : Bool) (ha : a = frm ∨ a = to) (id : Nat)
+    (hopen : (∃ pr, get (run cfg s0 before).props id = some pr ∧ (pr.status = 0 ∨ pr.status = 1) ∧ pr.proposer = a) ∨
+             (get (run cfg s0 before).deposits (id, a)).isSome = true ∨ (id, a) ∈ (run cfg s0 before).votes) :
+    ∀ s', migrate cfg (run cfg s0 before) frm to sigOk ≠ .ok s' := by
+  intro s' h
+  have gi := govInv_run hg before
+  have hc := no_deposit_or_vote_of_migrated hg before h
+  rcases hopen with ⟨pr, hp, hst, hpa⟩ | hd | hv
+  · rcases hst with h0 | h1
+    · exact refused_while_in_open_proposal _ frm to a sigOk id pr.depEnd ha
+        (Or.inl ⟨gi.open0 id pr hp h0, Or.inl ⟨pr, hp, hpa⟩⟩) s' h
+    · exact refused_while_in_open_proposal _ frm to a sigOk id pr.voteEnd ha
+        (Or.inr ⟨gi.open1 id pr hp h1, Or.inl (Or.inl ⟨pr, hp, hpa⟩)⟩) s' h
+  · cases hgd : get (run cfg s0 before).deposits (id, a) with
+    | none => rw [hgd] at hd; cases hd
+    | some n =>
+      have hm := get_some_mem _ _ _ hgd
+      have := hc.1 _ hm
+      rcases ha with rfl | rfl
+      · exact this.1 rfl
+      · exact this.2 rfl
+  · have := hc.2.1 _ hv
+    rcases ha with rfl | rfl
+    · exact this.1 rfl
+    · exact this.2 rfl
+
+/-- what remains of `MigEnv` once the gov invariant is known: neither address is a module pool, and no
+delegator-withdraw-address setting or vesting schedule mentions the source or the target -/
+structure MigEnvNoGov (s : State) (frm to : Addr) : Prop where
+  modFix : ModFix frm to
+  wd_frm : get s.wdAddr frm = none
+  wd_to : get s.wdAddr to = none
+  wd_val : ∀ a w, get s.wdAddr a = some w → w ≠ frm ∧ w ≠ to
+  vest_frm : get s.vest frm = none
+  vest_to : get s.vest to = none
+
+/-- **later_behaviour_equal for every reachable state, without any assumption about deposits and votes**: as
+`later_behaviour_equal_reachable`, with the deposit / vote part of `MigEnv` PROVED from the gov invariant of every
+history instead of assumed -/
+theorem later_behaviour_equal_reachable_gov {s0 : State} (hx : IdxInv s0) (hq : QInv s0) (hsi : SiInv s0 ∧ IdInv s0)
+    (hg : GovInv s0) (before : List Op) {s' : State} {frm to : Addr} {sigOk : Bool}
+    (h : migrate cfg (run cfg s0 before) frm to sigOk = .ok s') (env : MigEnvNoGov (run cfg s0 before) frm to)
+    (later : List Op) (hl : ∀ op ∈ later, isMigrate op = false) :
+    Sim frm to (run cfg (bankExecute cfg (run cfg s0 before) to frm) later) (run cfg s' (later.map (swOp frm to))) ∧
+    trace cfg (bankExecute cfg (run cfg s0 before) to frm) later = trace cfg s' (later.map (swOp frm to)) := by
+  have hc := no_deposit_or_vote_of_migrated hg before h
+  exact later_behaviour_equal_reachable hx hq hsi before h
+    ⟨env.modFix, env.wd_frm, env.wd_to, env.wd_val, hc.1, hc.2.1, env.vest_frm, env.vest_to⟩ later hl
+
+
 /-! ## non-vacuity -/
 
 /-- a portfolio: balances in two denoms, delegations to two validators, an unbonding delegation sharing its completion
@@ -1358,6 +1481,33 @@ example : IdxInv exBase ∧ QInv exBase ∧ (SiInv exBase ∧ IdInv exBase) ∧
     rw [this] at hp; cases hp
   · have : (run cfg exBase exBefore).votes = [] := rfl
     rw [this] at hp; cases hp
+
+/-! ### non-vacuity of the gov invariant theorems -/
+
+/-- a state without staking records and without proposals: one validator, two funded users with key, funded pools -/
+def exBaseG : State :=
+  { vals := [100], hasKey := [1, 2], valTok := [(100, 1000)], period := [(100, 2)],
+    bal := [((1, 0), 5000), ((2, 0), 5000), ((bondedPool, 0), 1000), ((notBondedPool, 0), 5)] }
+
+/-- user 1 delegates and undelegates, user 2 submits a proposal below the minimum deposit, user 1 deposits on it -/
+def exBeforeG : List Op := [.delegate 1 100 90 0, .undelegate 1 100 10 0, .submit 2 100, .deposit 1 1 50, .block 5]
+
+/-- while the proposal is in its deposit period user 1 is refused (hypotheses of `refused_while_proposal_status_open`:
+the invariant holds in `exBaseG`, the deposit record exists); the deposit period ends unfunded at time 200, the end
+blocker of the first block at or after it refunds user 1 and deletes the proposal; then the migration is accepted, no
+deposit record is left, and all hypotheses of `later_behaviour_equal_reachable_gov` hold together -/
+example : GovInv exBaseG ∧
+    (get (run cfg exBaseG exBeforeG).deposits (1, 1)).isSome = true ∧
+    migrate cfg (run cfg exBaseG exBeforeG) 1 11 true = .error .gov ∧
+    (∃ s', migrate cfg (run cfg exBaseG (exBeforeG ++ [.block 200, .block 1])) 1 11 true = .ok s' ∧ s'.deposits = [] ∧
+      balOf s'.bal 11 0 = 4910) ∧
+    IdxInv exBaseG ∧ QInv exBaseG ∧ (SiInv exBaseG ∧ IdInv exBaseG) ∧
+    MigEnvNoGov (run cfg exBaseG (exBeforeG ++ [.block 200, .block 1])) 1 11 := by
+  refine ⟨govInv_base exBaseG rfl rfl rfl, by decide, rfl, ⟨_, rfl, by decide, by decide⟩,
+    idxInv_base exBaseG rfl rfl rfl rfl rfl rfl rfl, qInv_base exBaseG rfl rfl, siIdInv_base exBaseG rfl rfl rfl rfl,
+    ⟨⟨by decide, by decide, by decide⟩, rfl, rfl, fun a w h => ?_, rfl, rfl⟩⟩
+  have : (run cfg exBaseG (exBeforeG ++ [.block 200, .block 1])).wdAddr = [] := rfl
+  rw [this, get_nil] at h; cases h
 
 /-! ### non-vacuity of later_behaviour_equal -/
 
